@@ -39,7 +39,7 @@ Rec == ndJsonDeserialize(IOEnv.TRACE)
 VARIABLES l, nbad, hits, nontriv
 vars == <<l, nbad, hits, nontriv>>
 
-HitNames == {"Run", "FitOk", "NoResult", "Core", "Border", "Noise", "TwoClusters",
+HitNames == {"Run", "FitOk", "NoResult", "SingleRow", "AllIdentical", "Core", "Border", "Noise", "TwoClusters",
              "ProvisionalNoise", "AmbiguousBorder", "ExactEps", "Duplicates",
              "BackendPair", "BorderDiffers",
              "PredictEmpty", "PredictNoiseWins", "PredictTie", "PredictPlurality",
@@ -133,6 +133,11 @@ RunIncK(e, n, D, cnb, core, comp, kinds) ==
        CASE x = "Run" -> 1
          [] x = "FitOk" -> Cardinality({a \in 1..Len(e.fits) : e.fits[a].status = "ok"})
          [] x = "NoResult" -> Cardinality({a \in 1..Len(e.fits) : e.fits[a].status # "ok"})
+         \* boundary data sets on which every back end returned a model (a single row, and
+         \* two or more rows that are all identical): ordinary cases, judged like any other
+         [] x = "SingleRow" -> B2N(n = 1 /\ \A a \in 1..Len(e.fits) : e.fits[a].status = "ok")
+         [] x = "AllIdentical" -> B2N(n >= 2 /\ InputClass(n, D) = "allIdentical"
+                                      /\ \A a \in 1..Len(e.fits) : e.fits[a].status = "ok")
          [] x = "Core" -> B2N(core # {})
          [] x = "Border" -> B2N(Border(n, cnb, core) # {})
          [] x = "Noise" -> B2N(\E i \in (1..n) \ core : cnb[i] = {})
